@@ -29,99 +29,48 @@ LEVEL = 'model_checking'
 
 JVM = {'JAVA_TOOL_OPTIONS': '-XX:ParallelGCThreads=2 -XX:CICompilerCount=2'}
 
-CFG = '''SPECIFICATION Spec
+CFG = '''SPECIFICATION {SPEC}
 CONSTANTS
-  MaxLeaves = {ML}
-  MaxOps = {MO}
-  MaxStack = {MS}
-  VarSet <- {V}
-  NumSet <- {N}
-  FuncSet <- {F}
-  Toks <- {T}
-  GToks <- {G}
-  IntExps <- {E}
-  Wraps <- {W}
-  Muts <- {M}
-  Cors <- {C}
-  Styles <- {S}
+  Fams <- VFFams
   EmitMin = {EM}
   Bug = "{BUG}"
-INVARIANT VerdictAgree
+'''
+CHECKS = '''INVARIANT VerdictAgree
 INVARIANT FreeAgree
 INVARIANT MeaningAgree
 INVARIANT RenderBalanced
 INVARIANT Unbalanced
 CONSTRAINT EmitComplete
 CONSTRAINT EmitTables
-CHECK_DEADLOCK FALSE
 '''
 
-BASE = dict(ML=2, MO=2, MS=2, V='VarsA', N='NumsA', F='FuncsA', T='ToksA', G='GToksA', E='ExpsA', W='AllWraps',
-            M='NoStrings', C='NoStrings', S='NoStrings', EM=0, BUG='')
-
-# name -> constants; see spec/MCExprParse.tla for the vocabularies
-CONFIGS = {
-    # two leaves, two productions over scalars, vectors, a 2x3 matrix, a pointwise and a generating function
-    'core': dict(T='ToksIJ'),
-    'core0': dict(),                                                      # ... with numerals (thorough)
-    # every rule-breaking constructor, small vocabulary
-    'mut': dict(V='VarsB', T='ToksB', G='GToksB', F='FuncsB', E='ExpsB', W='WrapsB', M='AllMuts'),
-    # every token corruption and the whitespace style
-    'cor': dict(V='VarsB', T='ToksB', G='GToksB', F='FuncsB', E='ExpsB', W='WrapsB', C='AllCors', S='OneStyle'),
-    # one leaf: numerals, traces, selections on arrays of rank 1..3, generated axes
-    'rank3': dict(ML=1, MO=2, MS=1, V='VarsC', T='ToksC', F='FuncsD', G='ToksD', N='NoStrings', E='ExpsB', W='WrapsB'),
-    # two leaves of rank 3: transposition to the first term's order, products with two and three common indices
-    'perm': dict(ML=2, MO=1, MS=2, V='VarsT', T='ToksD', F='NoStrings', G='NoStrings', N='NoStrings', E='NoStrings', W='NoStrings'),
-    'perm2': dict(ML=2, MO=1, MS=2, V='VarsD', T='ToksD', F='FuncsD', G='ToksD', N='NoStrings', E='NoStrings', W='NoStrings'),
-    # three leaves (thorough)
-    'three': dict(ML=3, MO=3, MS=3, V='VarsB', N='NumsA', T='ToksIJ', G='GToksB', F='FuncsB', E='ExpsB', W='WrapsB'),
-    # everything, random walks
-    'sim': dict(ML=4, MO=6, MS=3, V='AllVars', N='AllNums', F='AllFuncs', T='AllToks', G='AllGToks', E='AllExps', W='AllWraps',
-                M='AllMuts', C='AllCors', S='OneStyle', EM=2),
-}
-
+# seeded defect of the algorithm model -> a family (spec/MCExprParse.tla) that must expose it
 SPEC_MUTANTS = {
-    # seeded defect of the algorithm model -> (configuration that must expose it, invariants that may fire)
-    'trace-noshift': 'rank3',
-    'sum-inverse-perm': 'perm',
-    'sum-nosummed': 'core',
-    'pow-noverify': 'core',
+    'trace-noshift': 'FamGen',        # _trace continues one position too far after removing a traced pair: G_ji(B_ij)
+    'sum-nosummed': 'FamSmall',       # parse_expression forgets the summed indices of later terms: c + A_ii
+    'sum-inverse-perm': 'FamPerm',    # parse_expression transposes with the inverse permutation: T_ijk + T_kij
+    'pow-noverify': 'FamSmall',       # parse_power does not compare the base indices with the summed indices: a_i^(A_ii)
 }
 
-
-def cfg_text(name, **over):
-    d = dict(BASE)
-    d.update(CONFIGS[name])
-    d.update(over)
-    return CFG.format(**d)
+ACTIONS = ['ANum', 'AVar', 'ABadVar', 'AWrap', 'ACall', 'ABadCall', 'APowInt', 'APowScoped', 'ATerm', 'AFrac', 'ANeg', 'ASum', 'AFinish']
 
 
-def generate(rep, name, *, simulate=None, depth=None, coverage=False, timeout=900, exhaustive=True, bug=''):
+def run_tlc(tag, fams, *, bare=False, bug='', emitmin=0, simulate=None, depth=None, seed=0, coverage=False, timeout=900):
+    """one TLC run of MCExprParse over the named families (the family is chosen in the initial state)"""
+    wd = tlc.workdir(tag + '-defs')
+    path = os.path.join(wd, 'MCExprParseX.tla')
+    with open(path, 'w') as f:
+        f.write('---- MODULE MCExprParseX ----\nEXTENDS MCExprParse\nVFFams == << {} >>\n====\n'.format(', '.join(fams)))
+    cfg = CFG.format(SPEC='BareSpec' if bare else 'Spec', EM=emitmin, BUG=bug) + ('' if bare else CHECKS) + 'CHECK_DEADLOCK FALSE\n'
     kw = {}
     if simulate:
-        kw = dict(simulate=dict(num=simulate), depth=depth, seed=rep.seed + 19)
-    res = tlc.run('MCExprParse', cfg_text=cfg_text(name, BUG=bug), tag='c19-' + name + ('-' + bug if bug else ''), workers=1, deadlock=False,
-                  coverage=coverage, timeout=timeout, env=JVM, **kw)
-    if bug:
-        return res
-    if res.violated:
-        raise tlc.TLCError('C19 design spec: invariant {} violated in configuration {} (the documented reading and the algorithm model '
-                           'disagree; this is a defect of the specification, not of nutils):\n{}'.format(res.violated, name, '\n'.join(res.error_trace[:40])))
-    rep.add_tlc(res, exhaustive=exhaustive)
-    tables = None
-    cases = {}
-    for e in res.emitted:
-        if 'vars' in e:
-            tables = e
-        else:
-            cases.setdefault((''.join(e['t']), e['ok']), e)
-    if tables is None:
-        raise tlc.TLCError('C19: the model did not emit its namespace tables')
-    return res, tables, list(cases.values())
+        kw = dict(simulate=dict(num=simulate), depth=depth, seed=seed)
+    return tlc.run('MCExprParseX', cfg_text=cfg, tag=tag, workers=1, deadlock=False, coverage=coverage, timeout=timeout, env=JVM,
+                   extra_modules=[path], **kw)
 
 
-def stratified(cases, per_class, rng):
-    'all valid cases first, then at most per_class cases of every (verdict, rule) class'
+def stratified(cases, per_class, per_valid, rng):
+    'at most per_class cases of every (verdict, rule) class, at most per_valid valid ones'
     groups = collections.defaultdict(list)
     for c in cases:
         groups[c['ok'], c['why']].append(c)
@@ -129,59 +78,80 @@ def stratified(cases, per_class, rng):
     for key in sorted(groups):
         g = groups[key]
         g.sort(key=lambda c: ''.join(c['t']))
-        if len(g) > per_class:
-            g = rng.sample(g, per_class)
+        n = per_valid if key[0] == 'ok' else per_class
+        if len(g) > n:
+            g = rng.sample(g, n)
         out.extend(g)
     return out
 
 
 def run(rep):
+    import concurrent.futures
     from . import c19_ns
     rng = random.Random(rep.seed)
     quick = rep.tier == 'quick'
-    plan = [('core', None), ('mut', None), ('cor', None), ('rank3', None), ('perm', None)]
+    exh = ['FamCore', 'FamMut', 'FamMut3', 'FamCor', 'FamRank3', 'FamGen', 'FamPerm']
     if not quick:
-        plan += [('core0', None), ('perm2', None), ('three', None)]
-    plan.append(('sim', 250 if quick else 6000))
-    allcases = []
-    tables = None
-    covered = collections.Counter()
-    for name, sim in plan:
-        cov = name in ('mut', 'cor')          # the vacuity guard: per-action coverage on the configurations that enable every action
-        res, tb, cases = generate(rep, name, simulate=sim, depth=16 if sim else None, coverage=cov, exhaustive=not sim,
-                                  timeout=1500 if not quick else 400)
-        if tables is not None and tb != tables:
-            raise tlc.TLCError('C19: namespace tables differ between configurations')
-        tables = tb
-        for k, v in res.coverage.items():
-            covered[k] += v[1]
-        rep.constants[name] = dict(states=res.distinct or res.generated, trees=len(cases),
-                                   valid=sum(c['ok'] == 'ok' for c in cases), invalid=sum(c['ok'] == 'bad' for c in cases))
-        allcases.append((name, cases))
-        rep.lap('tlc ' + name)
-    actions = ['ANum', 'AVar', 'ABadVar', 'AWrap', 'ACall', 'ABadCall', 'APowInt', 'APowScoped', 'ATerm', 'AFrac', 'ANeg', 'ASum', 'AFinish']
-    dead = [a for a in actions if not covered.get(a)]
+        exh = ['FamCore0', 'FamMut', 'FamMut3', 'FamCor', 'FamRank3', 'FamGen', 'FamPerm2', 'FamThree']
+    nsim = 250 if quick else 8000
+    mutants = ['trace-noshift', 'sum-nosummed'] if quick else sorted(SPEC_MUTANTS)
+    tmo = 500 if quick else 2400
+    jobs = {
+        'exhaustive': lambda: run_tlc('c19-exh', exh, timeout=tmo),
+        'simulate': lambda: run_tlc('c19-sim', ['FamSim'], emitmin=2, simulate=nsim, depth=16, seed=rep.seed + 19, timeout=tmo),
+        # vacuity guard: per-action coverage of the bare machine on the families that enable every action
+        'coverage': lambda: run_tlc('c19-cover', ['FamMut', 'FamMut3', 'FamCor'], bare=True, coverage=True, timeout=tmo),
+    }
+    for bug in mutants:
+        jobs['mutant:' + bug] = (lambda bug: lambda: run_tlc('c19-mutant-' + bug, [SPEC_MUTANTS[bug]], bug=bug, timeout=tmo))(bug)
+    with concurrent.futures.ThreadPoolExecutor(max_workers=3) as pool:
+        futs = {k: pool.submit(f) for k, f in jobs.items()}
+        results = {k: f.result() for k, f in futs.items()}
+    rep.lap('tlc')
+
+    for k in ('exhaustive', 'simulate'):
+        res = results[k]
+        if res.violated:
+            raise tlc.TLCError('C19 design spec: invariant {} violated ({} run): the documented reading and the algorithm model disagree; '
+                               'this is a defect of the specification, not of nutils:\n{}'.format(res.violated, k, '\n'.join(l[:300] for l in res.error_trace[:30])))
+        rep.add_tlc(res, exhaustive=(k == 'exhaustive'))
+    cov = results['coverage']
+    rep.tlc_cmds.append(cov.cmd.split('tlc2.TLC ')[-1])
+    for a, v in cov.coverage.items():
+        if a in ACTIONS:
+            rep.actions[a] = v[1]
+    dead = [a for a in ACTIONS if not rep.actions.get(a)]
     if dead:
         raise tlc.TLCError('C19 vacuity guard: actions never taken: {}'.format(dead))
-
     # spec mutants: a seeded defect of the algorithm model must violate an invariant
-    for bug, name in SPEC_MUTANTS.items():
-        if quick and bug not in ('trace-noshift', 'sum-nosummed'):
-            continue
-        res = generate(rep, name, bug=bug, timeout=400)
+    for bug in mutants:
+        res = results['mutant:' + bug]
         if not res.violated:
-            raise tlc.TLCError('C19: the seeded defect {!r} of the algorithm model violates no invariant in configuration {!r}: invariants are vacuous'.format(bug, name))
+            raise tlc.TLCError('C19: the seeded defect {!r} of the algorithm model violates no invariant over {}: the invariants are vacuous'.format(bug, SPEC_MUTANTS[bug]))
         rep.extra.setdefault('spec_mutants_caught', {})[bug] = res.violated
-    rep.lap('spec mutants')
+
+    tables = None
+    byfam = collections.defaultdict(dict)
+    for k, names in (('exhaustive', exh), ('simulate', ['FamSim'])):
+        for e in results[k].emitted:
+            if 'vars' in e:
+                tables = e
+            else:
+                byfam[names[e['fam'] - 1]].setdefault((''.join(e['t']), e['ok']), e)
+    if tables is None:
+        raise tlc.TLCError('C19: the model did not emit its namespace tables')
+    for name, d in byfam.items():
+        rep.constants[name] = dict(trees=len(d), valid=sum(c['ok'] == 'ok' for c in d.values()), invalid=sum(c['ok'] == 'bad' for c in d.values()))
 
     # S->C replay
     R = c19_ns.Replayer(tables)
-    per_class = 60 if quick else 100000
+    per_class = 40 if quick else 100000
     nvalid = 0
     worst = {}
     seen = set()
-    for name, cases in allcases:
-        sel = stratified(cases, per_class if name != 'sim' else 100000, rng)
+    for name in sorted(byfam):
+        cases = list(byfam[name].values())
+        sel = stratified(cases, 100000 if name == 'FamSim' else per_class, 250 if quick else 100000, rng)
         for c in sel:
             s = c19_ns.text(c)
             if (s, c['ok']) in seen:
@@ -198,15 +168,16 @@ def run(rep):
                 if o.kind == 'violation':
                     w = worst.get(o.key)
                     rank = (c['no'], len(s), s)
+                    data = dict(expression=s, model=dict(verdict=c['ok'], rule=c['why'], axes=c['fr'], array=c['arr']), family=name)
                     if w is None or rank < w[0]:
-                        worst[o.key] = (rank, o.what, dict(expression=s, model=dict(verdict=c['ok'], rule=c['why'], axes=c['fr'], array=c['arr']), config=name), (w[3] if w else 0) + 1)
+                        worst[o.key] = (rank, o.what, data, (w[3] if w else 0) + 1)
                     else:
                         worst[o.key] = (w[0], w[1], w[2], w[3] + 1)
             if judged:
                 rep.traces += 1
                 nvalid += c['ok'] == 'ok'
                 rep.case((s, c['ok']), nontrivial=c['no'] >= 2)
-                if c['no'] >= 3:
+                if c['no'] >= 3 and name == 'FamSim':
                     rep.sample(dict(expression=s, verdict=c['ok'], rule=c['why'], axes=c['fr'], array=c['arr'] if len(c['arr']['v']) <= 4 else '...'))
     rep.lap('replay')
     for key, (rank, what, data, count) in sorted(worst.items()):
